@@ -414,6 +414,9 @@ class Interp:
             if isinstance(a, Vec):
                 self.bad(e, "mean over the components of a vector is not rotation invariant")
                 return Comp()
+            if isinstance(a, Rows) and ax is None:
+                self.bad(e, "the mean is taken over all elements of an array of vectors (no axis=0): it mixes the Cartesian components of all atoms into one number, which is not the centroid - subtracting it shifts the atoms along (1,1,1) by an amount that depends on the absolute position and orientation of the molecule, so the result is neither translation nor rotation invariant")
+                return Comp()
             raise Undecidable(f"mean of {a}")
         if name == "sum":
             a = args[0]
@@ -609,7 +612,13 @@ def analyse_calculate(func, index_len=None, methods=None):
         raise Undecidable("calculate(self, system) expected")
     env[params[0]] = Const(None)
     env[params[1]] = Const(None)  # attribute access on it is interpreted by name (.pos/.vel/.box)
-    states, results = it.run(func.body, env)
+    try:
+        states, results = it.run(func.body, env)
+    except Undecidable:
+        if it.violations:
+            # what was decided before the fragment ended stands: a violation on the way is a violation
+            return it.violations, 0, 0
+        raise
     nret = 0
     for s, ret, st in results:
         for node, v in ret:
